@@ -20,13 +20,20 @@ REG_POOL = ['a', 'b', 'x', 'sp', 'hl', 'ix', 'r0', 'r1', 'r10', 'mar', 'acc', 's
 MACRO_POOL = ['push2x', 'mov2', 'ld2', 'm.dot', 'jsr2', 'st', '_push2', 'call_']
 
 
+# free text of the definition that ends up inside generated JSON / XML / YAML files
+DESCRIPTIONS = ['C20 vocabulary ISA', 'C20 vocabulary ISA', 'SAP-9: an 8-bit breadboard CPU (rev #2)', '[draft] cpu', '{x} cpu',
+                '"quoted" cpu', "it's a cpu", '*star cpu', '&amp cpu', '!bang', '| pipe', '> fold', '%percent', '@at', '`tick`',
+                'a <b> & c ]]> d', 'back\\slash \\n', 'yes', 'null', '~', '- dash', 'key: value # comment', 'trailing colon:',
+                'caf\u00e9 \u00b5CPU', '  two  spaces  ', '#hash first', "mixed \"both' kinds"]
+
+
 def vocab_isa(rng, with_macros, with_regs, with_pre):
     regs = rng.sample(REG_POOL, rng.randrange(1, 7)) if with_regs else []
     mns = rng.sample(MN_POOL, rng.randrange(2, 10))
     mns = [m for m in mns if m not in regs]
     if not mns:
         mns = ['ldq']
-    isa = {'description': 'C20 vocabulary ISA',
+    isa = {'description': rng.choice(DESCRIPTIONS),
            'general': {'address_size': 16, 'endian': 'big', 'identifier': {'name': rng.choice(['vflang', 'my-cpu_2', 'X1']), 'version': '2.1.0'}},
            'operand_sets': {'imm': {'operand_values': {'i': {'type': 'numeric', 'argument': {'size': 8, 'byte_align': True}}}}},
            'instructions': {}}
@@ -77,7 +84,8 @@ class C20(core.Check):
     crosscheck_every = {'quick': 0, 'thorough': 0}       # the CLI cross-check compares files, the inspector ran in the worker
     required_buckets = {b: 3 for b in ['target:vscode', 'target:sublime', 'vocab:macros', 'vocab:no-macros', 'vocab:registers',
                                        'vocab:no-registers', 'vocab:predefined', 'vocab:no-predefined', 'mnemonic:contains-dot',
-                                       'mnemonic:prefix-of-another', 'mnemonic:single-letter', 'vocab:underscore-at-edge']}
+                                       'mnemonic:prefix-of-another', 'mnemonic:single-letter', 'vocab:underscore-at-edge',
+                                       'description:special-characters']}
 
     def __init__(self):
         self.words = 0
@@ -101,6 +109,8 @@ class C20(core.Check):
                 tags.add('mnemonic:single-letter')
             if any(w.startswith('_') or w.endswith('_') for w in mns + macros + regs):
                 tags.add('vocab:underscore-at-edge')
+            if isa['description'] != DESCRIPTIONS[0]:
+                tags.add('description:special-characters')
             for tgt in ('vscode', 'sublime'):
                 argv = ['generate-extension', tgt, '-c', fn, '-d', 'out']
                 if rng.random() < 0.3:
